@@ -36,6 +36,14 @@ Definition grow (f : flavour) (x : sval) (m : Z) : sval :=
   | SDead => SDead
   end.
 
+(* a String modified through its own variable: append a marker, keep the first n markers, or (reserve) nothing *)
+Definition smod (x : sval) (md : smode) : sval :=
+  match x with
+  | SVal i n => SVal i (str_newval md n)
+  | SNull => SVal 0 (str_newval md 0)
+  | SDead => SDead
+  end.
+
 Definition spec_step (f : flavour) (s : sstate) (o : op) : sstate :=
   match o with
   | OCreate v n =>
@@ -74,6 +82,8 @@ Definition spec_step (f : flavour) (s : sstate) (o : op) : sstate :=
   | OWrite v m => match f with FPtr => s | _ => if is_dead (sget s v) then s else sset s v (grow f (sget s v) m) end
   | ODetach v => match f with FPtr => s | _ => if is_dead (sget s v) then s else sset s v (grow f (sget s v) 0) end
   | ODestroy v => sset s v SDead
+  | OResize v n => match f with FStr => if is_dead (sget s v) then s else sset s v (smod (sget s v) (STrunc n)) | _ => s end
+  | OReserve v n => match f with FStr => if is_dead (sget s v) then s else sset s v (smod (sget s v) (SReserve n)) | _ => s end
   end.
 
 Definition spec_run (f : flavour) (ops : list op) : sstate := fold_left (spec_step f) ops sinit.
